@@ -267,8 +267,11 @@ type attempt struct {
 func collect(p *proc, lo, hi int, quiet time.Duration, handle func(idx int, r *Result)) attempt {
 	next := lo
 	call := ""
-	t := time.NewTimer(quiet)
+	// quiet is measured in the worker's effective time (effclock.go): silence of a starved worker is not a stall
+	clk := newEffClock(strconv.Itoa(p.cmd.Process.Pid))
+	t := time.NewTicker(time.Second)
 	defer t.Stop()
+	gotLine := false
 	for next < hi {
 		select {
 		case ln, ok := <-p.lines:
@@ -277,13 +280,7 @@ func collect(p *proc, lo, hi int, quiet time.Duration, handle func(idx int, r *R
 				se := p.stderr.String()
 				return attempt{kind: "died", idx: next, call: call, class: deathClass(se, st), stderr: se, status: st}
 			}
-			if !t.Stop() {
-				select {
-				case <-t.C:
-				default:
-				}
-			}
-			t.Reset(quiet)
+			gotLine = true
 			f := strings.SplitN(ln, " ", 3)
 			switch f[0] {
 			case "T":
@@ -319,6 +316,14 @@ func collect(p *proc, lo, hi int, quiet time.Duration, handle func(idx int, r *R
 				next++
 			}
 		case <-t.C:
+			if gotLine {
+				gotLine = false
+				clk.Reset()
+				continue
+			}
+			if clk.Elapsed() < quiet {
+				continue
+			}
 			p.kill()
 			return attempt{kind: "stalled", idx: next, call: call, stderr: p.stderr.String(), status: "killed-by-watchdog"}
 		}
